@@ -1,57 +1,89 @@
-import PPLV.Solver.PendingProofsIncr
+import PPLV.Solver.PendingProofsProto2
 import PPLV.Props.C06Tab
 
 /-!
 # C06 stage 3 — the incremental call of `process_pending_constraints` (`solve; add_constraint; solve`)
 
-What is proved: the whole chain AFTER the set-up, for any call (`lp_incremental_correct_partial`); that a complete
-solve re-establishes the starting invariant of the next call (`solve_keeps_ready`); and the row-level facts the
-incremental set-up relies on (`combine_against_base_keeps_solutions`, `split_columns_stay_opposite`,
-`merge_split_keeps_projection`, `remove_column_is_zero_insertion`).
-What is NOT proved (the exact gap): that the set-up of an incremental call (`first_pending > 0`: old canonical rows
-padded with the new columns, re-merged variables, new rows combined against the base, flags computed at the
-recomputed `last_generator`, artificial columns also for the rows made unfeasible by re-merging) produces
-`Phase1Start`, `SetupGood` and a mapping laid out before the artificial columns — the three hypotheses of
-`lp_incremental_correct_partial`, which are theorems for a fresh problem.  The exact replay covers this path
-empirically (0 mismatches in 400 000 cases, ≈ half of the set-up calls incremental).
+`incremental_setup_hands_over`: the set-up of an incremental call (`first_pending > 0`: old canonical rows padded with
+the new columns, re-merged variables, new rows combined against the base, flags computed at the recomputed
+`last_generator`, artificial columns also for the rows made unfeasible by re-merging) produces `Phase1Start`,
+`SetupGood` and a mapping laid out before the artificial columns — derived from the state before the call.
+`lp_incremental_correct`: hence the whole incremental call and the following `second_phase()` answer correctly, and
+re-establish the invariant `ReadyS` for the next incremental call.
+`status_sound`: the full status protocol (invariant `ProtoInv`: solved status ⇒ nothing pending, truthful answers,
+feasible canonical basis encoding the processed constraints), kept by the mutators and both solvers.
+`solve_keeps_ready` and the row-level facts (`combine_against_base_keeps_solutions`, `split_columns_stay_opposite`,
+`merge_split_keeps_projection`, `remove_column_is_zero_insertion`) are kept from the earlier stage.
+Restriction: no space dimension added between the two solves (`internal_space_dim = external_space_dim`), at least
+one variable.  Not covered: termination (fuel hypotheses).
 -/
 namespace C06
 open PPLV.Lin PPLV.Solver PPLV.Solver.Tab PPLV.Solver.Pend
 
-/-- **the LP answers after any call of `process_pending_constraints`, given the hand-over facts of its set-up.**
-    `_partial`: for an incremental call the hypotheses `hP`, `hG`, `hmap` are not derived from the state before the
-    call (see the header); with them: the call ends UNSATISFIABLE and no point satisfies the constraints, or it ends
-    SATISFIABLE, some point does, and `second_phase()` ends OPTIMIZED / UNBOUNDED with `last_generator` a point of the
-    solution set that nothing beats / with arbitrarily good points. -/
-theorem lp_incremental_correct_partial (fc : Chooser) (hfc : ChooserOK fc) (f1 f2 : Nat) (s sR s' : LPState) (b e : Nat)
-    (hsetup : ppcSetup s = .phase1 s' b e) (hP : Phase1Start s' b e)
-    (hG : SetupGood s.input_cs s.external_space_dim s' b)
-    (hmap : ∃ nn j, MapOK s'.mapping nn s.external_space_dim j ∧ 1 + j ≤ artStart b s'.numCols)
-    (hn : 0 < s.external_space_dim) (hl : ∀ c ∈ s.input_cs, c.coeffs.length ≤ s.external_space_dim)
+/-- **the set-up of an incremental call hands over what the first phase needs** — the three facts that were the
+    hypotheses `hP`, `hG`, `hmap` of the former `lp_incremental_correct_partial`, now derived from the state BEFORE
+    the call (`IncrStart s`: some variables, no new space dimension, the first `first_pending` constraints processed
+    with `ReadyS`, i.e. canonical feasible tableau whose non-negative solutions are the encodings of their solution
+    set): the tableau with the first-phase cost row is canonical and feasible (`Phase1Start`), the mapping lies
+    before the artificial columns, and the non-negative solutions with artificials 0 are exactly the encodings of
+    the solutions of ALL constraints (`SetupGood`).  Covers: recomputed `last_generator` and the "already satisfied"
+    flags, `parse_constraints` on an old mapping, re-merging of split variables (rows made unfeasible get the first
+    artificial columns), the old sign column turned into the first new column, new rows combined against the base,
+    sign normalisation, artificial columns, the cost row re-expressed. -/
+theorem incremental_setup_hands_over (s : LPState) (hS : IncrStart s) (s' : LPState) (b e : Nat)
+    (h : ppcSetup s = .phase1 s' b e) :
+    Phase1Start s' b e ∧
+    (∃ nn j, MapOK s'.mapping nn s.external_space_dim j ∧ 1 + j ≤ artStart b s'.numCols) ∧
+    SetupGood s.input_cs s.external_space_dim s' b :=
+  let ⟨a, b', c, _⟩ := incr_setup s hS s' b e h
+  ⟨a, b', c⟩
+
+/-- **the LP answers after an INCREMENTAL call of `process_pending_constraints`** (`solve; add_constraint …;
+    solve`), hypotheses about the state before the call only (`IncrStart s`, objective no longer than the space
+    dimension, the fuel sufficed): the call ends UNSATISFIABLE and no point satisfies the constraints, or it does not,
+    some point does, the invariant `ReadyS` holds again (so the next incremental call is covered too), and
+    `second_phase()` ends OPTIMIZED / UNBOUNDED with `last_generator` a point of the solution set that nothing
+    beats / with arbitrarily good points, again with `ReadyS`.
+    Restriction (stated in `IncrStart`): no space dimension added since the last solve
+    (`internal_space_dim = external_space_dim`) and at least one variable. -/
+theorem lp_incremental_correct (fc : Chooser) (hfc : ChooserOK fc) (f1 f2 : Nat) (s sR : LPState) (hS : IncrStart s)
     (hobj : s.obj.coeffs.length ≤ s.external_space_dim)
     (h : processPendingConstraints fc f1 s = some sR) :
     (sR.status = .UNSATISFIABLE ∧ ∀ x, ¬ Sat s.problem.cs x) ∨
-    (sR.status = .SATISFIABLE ∧ (∃ x, Sat s.problem.cs x) ∧
+    (sR.status ≠ .UNSATISFIABLE ∧ (∃ x, Sat s.problem.cs x) ∧ ReadyS s.input_cs s.external_space_dim sR ∧
       ∀ s2, secondPhase fc f2 sR = some s2 →
         (s2.status = .OPTIMIZED ∨ s2.status = .UNBOUNDED) ∧
         0 < s2.last_generator.den ∧ Sat s.problem.cs s2.last_generator.val ∧
         (s2.status = .OPTIMIZED → ∀ x, Sat s.problem.cs x →
           ¬ Better s.problem (s.problem.objVal x) (s.problem.objVal s2.last_generator.val)) ∧
-        (s2.status = .UNBOUNDED → ∀ M : Rat, ∃ x, Sat s.problem.cs x ∧ Better s.problem (s.problem.objVal x) M)) := by
+        (s2.status = .UNBOUNDED → ∀ M : Rat, ∃ x, Sat s.problem.cs x ∧ Better s.problem (s.problem.objVal x) M) ∧
+        ReadyS s.input_cs s.external_space_dim s2) := by
   have hsem : ∀ x, Sat s.problem.cs x ↔ csSem s.input_cs x := fun x => (csSem_iff_Sat s.input_cs x).symm
-  rcases lp_incremental_chain fc hfc f1 f2 s sR s' b e hsetup hP hG hmap hn hl hobj h with ⟨a1, a2⟩ | ⟨a1, ⟨x0, hx0⟩, a3⟩
+  rcases Pend.lp_incremental_correct fc hfc f1 f2 s sR hS hobj h with ⟨a1, a2⟩ | ⟨a1, ⟨x0, hx0⟩, a3, a4⟩
   · exact Or.inl ⟨a1, fun x hx => a2 x ((hsem x).mp hx)⟩
-  · refine Or.inr ⟨a1, ⟨x0, (hsem x0).mpr hx0⟩, fun s2 h2 => ?_⟩
-    obtain ⟨w1, w2, w3, w4, w5⟩ := a3 s2 h2
+  · refine Or.inr ⟨a1, ⟨x0, (hsem x0).mpr hx0⟩, a3, fun s2 h2 => ?_⟩
+    obtain ⟨⟨w1, w2, w3, w4, w5⟩, w6⟩ := a4 s2 h2
     exact ⟨w1, w2, (hsem _).mpr w3, fun hopt x hx => w4 hopt x ((hsem x).mp hx),
-      fun hunb M => by obtain ⟨x, x1, x2⟩ := w5 hunb M; exact ⟨x, (hsem x).mpr x1, x2⟩⟩
+      fun hunb M => by obtain ⟨x, x1, x2⟩ := w5 hunb M; exact ⟨x, (hsem x).mpr x1, x2⟩, w6⟩
 
--- the hypotheses are satisfiable: for a fresh problem they are theorems
-example : ∃ s' b e, ppcSetup exFresh = .phase1 s' b e ∧ Phase1Start s' b e ∧
-    SetupGood exFresh.input_cs exFresh.external_space_dim s' b := by
-  have hF : Fresh exFresh := ⟨rfl, rfl, rfl, rfl, rfl, rfl, by decide, by decide⟩
-  have h : ppcSetup exFresh = .phase1 (match ppcSetup exFresh with | .phase1 s' _ _ => s' | .done s' => s') 5 6 := rfl
-  exact ⟨_, 5, 6, h, setup_phase1_canon exFresh hF rfl _ 5 6 h, (tableau_setup_solutions exFresh hF).2.1 _ 5 6 h⟩
+/-- a state satisfying `IncrStart`: `x₀ + 1 ≥ 0` processed (x₀ split into columns 1, 2; the NEGATIVE part basic), and
+    `x₀ ≥ 0` pending — the incremental call has to re-merge x₀, which makes row 0 unfeasible -/
+def exIncr : LPState := { MergeExample.st with input_cs := MergeExample.cs0 ++ [⟨[1], 0, false⟩] }
+
+theorem exIncr_start : IncrStart exIncr := by
+  refine ⟨by decide, rfl, ?_, ?_⟩
+  · intro c hc
+    simp only [exIncr, MergeExample.cs0, List.cons_append, List.nil_append, List.mem_cons, List.not_mem_nil,
+      or_false] at hc
+    rcases hc with rfl | rfl <;> decide
+  · have R := MergeExample.readyS
+    exact ⟨⟨R.ready.tb, R.ready.map, R.ready.sound, R.ready.complete⟩, R.ncols, R.completeS⟩
+
+-- the hypotheses are satisfiable, and the model really re-merges on this state
+example : IncrStart exIncr ∧ (∃ s' b e, ppcSetup exIncr = .phase1 s' b e ∧ s'.mapping = [(0, 0), (1, 0)]) := by
+  refine ⟨exIncr_start, ?_⟩
+  have h : ppcSetup exIncr = .phase1 (match ppcSetup exIncr with | .phase1 s' _ _ => s' | .done s' => s') 3 4 := rfl
+  exact ⟨_, 3, 4, h, rfl⟩
 
 /-- **a complete solve re-establishes the starting point of the next incremental call**: after `second_phase()`
     the state is still `Ready` (feasible basis; non-negative solutions = encodings of the solution set). -/
@@ -96,5 +128,31 @@ theorem remove_column_is_zero_insertion (r : Row) (q : Nat) (y : Val) :
   rowVal_eraseIdx r q y
 
 example : ([3, 2, -2, 1] : Row).eraseIdx 2 = [3, 2, 1] := rfl
+
+/-- **the status protocol, in full** (`ProtoInv s`, `PPLV/Solver/PendingProofsProto.lean`): between calls,
+    (i) a status SATISFIABLE / UNBOUNDED / OPTIMIZED promises that nothing is pending, (ii) the constraints fit the
+    space dimension, (iii) UNSATISFIABLE is truthful (no point satisfies the constraints), (iv) OPTIMIZED / UNBOUNDED
+    is truthful (`last_generator` is a point of the solution set that nothing beats / there are arbitrarily good
+    points), and (v) unless UNSATISFIABLE the problem was never solved, or the first `first_pending` constraints are
+    processed with a canonical FEASIBLE basis whose non-negative solutions are the encodings of their solution set
+    (`ReadyS`) — the link "solved status ⇒ the basis is feasible" beyond the status transitions of `C06.status_transitions`.
+    The invariant holds for `MIP_Problem(m)`; every mutator keeps it (`add_constraint` / `set_objective_function`
+    for arguments within the space dimension); `is_lp_satisfiable()` keeps it, answers `false` only with
+    UNSATISFIABLE and an empty solution set, `true` only with a solved status, a non-empty solution set and `ReadyS`
+    for ALL constraints — whether this is the first solve or an incremental one; `second_phase()` keeps it and ends
+    OPTIMIZED / UNBOUNDED truthfully.
+    Hypotheses of the two solver clauses: at least one variable, the objective fits, the fuel sufficed, and — for
+    `is_lp_satisfiable()` — no space dimension was added since the last solve (`NoNewDims`). -/
+theorem status_sound (fc : Chooser) (hfc : ChooserOK fc) : ProtoSpec fc := protoSpec fc hfc
+
+-- the hypotheses of the solver clauses are satisfiable: a never-solved problem with one constraint …
+example : ProtoInv (addConstraint (LPState.new 1) ⟨[1], 1, false⟩) ∧
+    NoNewDims (addConstraint (LPState.new 1) ⟨[1], 1, false⟩) :=
+  ⟨((proto_mutators _ (proto_new 1) ⟨[1], 1, false⟩ ⟨[], 0⟩ true 0 .TEXTBOOK).1 (by decide)),
+    Or.inl (mutators_untouched _ (new_untouched 1) ⟨[1], 1, false⟩ ⟨[], 0⟩ true 0 .TEXTBOOK).1⟩
+-- … and a solved one with a pending constraint (`exIncr`: third alternative of the invariant)
+example : 0 < exIncr.internal_space_dim ∧ exIncr.internal_space_dim ≤ exIncr.external_space_dim ∧
+    ReadyS (exIncr.input_cs.take exIncr.first_pending) exIncr.internal_space_dim exIncr :=
+  ⟨by decide, by decide, exIncr_start.ready⟩
 
 end C06
